@@ -97,5 +97,7 @@ func Corpus() *Env {
 	add(&Decl{Name: "HasPatch", Kind: "record", Fields: []Field{
 		opt("patch", P("str")), opt("other", P("i32")), opt("inner", R("Inner"))}})
 	add(&Decl{Name: "MapKeys", Kind: "record", Fields: []Field{req("m", M(P("str"))), opt("mi", M(P("i32")))}})
+	// the C02 resource corpus (c02corpus.go): raw manifest entries, not Decls
+	e.ExtraDataTypes, e.Resources = e.c02Manifest()
 	return e
 }
